@@ -89,10 +89,12 @@ class TimeRoundTrip(Obligation):
                 {'d_j': 1, 't_H': 0}, {'d_j': 59, 't_H': 23},
                 {'d_j': 200, 't_H': 11}]
 
-    def __init__(self, year, T, etflag):
+    def __init__(self, year, T, etflag, step_h=1):
         self.year, self.T, self.etflag = year, T, etflag
-        self.name = 'time-roundtrip[%d,T=%d,ETFLAG=%s]' % (year, T, etflag)
-        self.bounds = {'year': year, 'T': T}
+        self.step_h = step_h
+        self.name = 'time-roundtrip[%d,T=%d,ETFLAG=%s%s]' % (
+            year, T, etflag, '' if step_h == 1 else ',step=%dh' % step_h)
+        self.bounds = {'year': year, 'T': T, 'step (hours)': step_h}
         self._k = None
 
     def kernel(self):
@@ -126,8 +128,9 @@ class TimeRoundTrip(Obligation):
         """(begin, end) flags of the T hourly steps"""
         out = []
         for t in range(self.T):
-            by, bj, bh = _flag(self.year, j, H, 0, t * 3600)
-            ey, ej, eh = _flag(self.year, j, H, 0, (t + 1) * 3600)
+            st = getattr(self, 'step_h', 1) * 3600
+            by, bj, bh = _flag(self.year, j, H, 0, t * st)
+            ey, ej, eh = _flag(self.year, j, H, 0, (t + 1) * st)
             out.append(((by * 1000 + bj, bh), (ey * 1000 + ej, eh)))
         return out
 
@@ -153,7 +156,7 @@ class TimeRoundTrip(Obligation):
         nc.variables = {'TFLAG': tf.view(shim.SymNDArray)}
         if self.etflag:
             nc.variables['ETFLAG'] = et.view(shim.SymNDArray)
-        nc.TSTEP = 10000
+        nc.TSTEP = 10000 * getattr(self, 'step_h', 1)
         env = dict(wmod.__dict__)
         env['ncffile'] = nc
         env['time_hdr'] = _Fields()
@@ -261,7 +264,7 @@ class TimeRoundTrip(Obligation):
                 f.ITZON, f.PLON, f.PLAT, f.IUTM = 0, 0., 0., 0
                 f.XORIG, f.YORIG, f.XCELL, f.YCELL = 0., 0., 1000., 1000.
                 f.CPROJ, f.TLAT1, f.TLAT2, f.ISTAG = 0, 0., 0., 0
-                f.TSTEP = 10000
+                f.TSTEP = 10000 * getattr(self, 'step_h', 1)
                 setattr(f, 'VAR-LIST', 'O3'.ljust(16))
                 try:
                     ncf2uamiv(f, path).close()
@@ -555,6 +558,10 @@ def obligations(tier):
         for T in ((1, 2) if tier == 'quick' else (1, 2, 3)):
             for et in (True, False):
                 obs.append(TimeRoundTrip(y, T, et))
+    # steps of a day and longer: the end of a step is days after its begin
+    for st in ((24, 72) if tier == 'quick' else (6, 24, 48, 72, 240)):
+        for et in (True, False):
+            obs.append(TimeRoundTrip(2003, 2, et, step_h=st))
     from . import metwrite
     obs += metwrite.obligations(tier)
     for y in years:
